@@ -299,7 +299,7 @@ fn non_quantile_lines(text: &str) -> Vec<String> {
     v
 }
 
-fn case_seq(bytes: &[u8], _s: &[u8], ctx: &mut Ctx) -> Result<(), Fail> {
+pub fn case_seq(bytes: &[u8], _s: &[u8], ctx: &mut Ctx) -> Result<(), Fail> {
     let mut src = Source::new(bytes);
     let mut case = decode(&mut src);
     case.steps.push(Step::Render);
@@ -425,7 +425,7 @@ struct SchedCase {
     observer: Vec<bool>,               // true = render, false = upkeep
 }
 
-fn case_sched(bytes: &[u8], sched_bytes: &[u8], ctx: &mut Ctx) -> Result<(), Fail> {
+pub fn case_sched(bytes: &[u8], sched_bytes: &[u8], ctx: &mut Ctx) -> Result<(), Fail> {
     let mut src = Source::new(bytes);
     let buckets = src.bool();
     let nr = 1 + src.below(3);
